@@ -107,7 +107,10 @@ def score_pair(arg):
             g = obj3d(gp, yaw=gyaw, size=gsize, label="car", frame=fr, ego=ego)
             r = DynamicObjectWithPerceptionResult(e, g, transforms=ego.transforms())
             r2 = DynamicObjectWithPerceptionResult(g, e, transforms=ego.transforms())
+            from perception_eval.evaluation.metrics.detection.tp_metrics import TPMetricsAph
+
             out[fr] = dict(center=r.center_distance.value, plane=r.plane_distance.value, iou2d=r.iou_2d.value, iou3d=r.iou_3d.value, yaw_error=r.heading_error[2],
+                           aph_weight=TPMetricsAph().get_value(r),
                            correct_plane_1m=r.is_result_correct(MatchingMode.PLANEDISTANCE, 1.0), center_s=r2.center_distance.value, iou2d_s=r2.iou_2d.value,
                            iou3d_s=r2.iou_3d.value)
             if fr == "base_link":
@@ -123,7 +126,10 @@ def score_pair(arg):
     ev = dict(iou2=f6(a["iou2d"]), iou3=f6(a["iou3d"]), iou2_swapped=f6(a["iou2d_s"]), iou3_swapped=f6(a["iou3d_s"]), iou2_moved=f6(m["iou2d"]), iou3_moved=f6(m["iou3d"]),
               cd4=f4(a["center"]), cd4_swapped=f4(a["center_s"]), cd4_moved=f4(m["center"]), pd4=f4(a["plane"]), pd4_moved=f4(m["plane"]), rot_only=1, identical=0, far=0,
               dx=int(round((ep[0] - gp[0]) * 100)), dy=int(round((ep[1] - gp[1]) * 100)), dz=int(round((ep[2] - gp[2]) * 100)))
-    return ev, dict(ego=[ego.t[0], ego.t[1], ego.yaw], gt=[gp, gyaw, gsize], est=[ep, eyaw, esize], scores=out)
+    # heading: a = ground-truth yaw, b = estimate yaw (ego frame); weight as computed with the pair stored in map / in base_link
+    hev = dict(a=int(round(gyaw * 1e4)) % 62832, b=int(round(eyaw * 1e4)) % 62832, w4=int(round(m["aph_weight"] * 1e4)), w4r=int(round(a["aph_weight"] * 1e4)),
+               e=int(round(m["yaw_error"] * 1e4)), tolw=0, tole=0)
+    return ev, dict(ego=[ego.t[0], ego.t[1], ego.yaw], gt=[gp, gyaw, gsize], est=[ep, eyaw, esize], scores=out, heading_event=hev)
 
 
 def run(ctx: Ctx):
@@ -144,6 +150,9 @@ def run(ctx: Ctx):
             ctx.violation("per-object-scores:ego-vs-map:yaw-error", "yaw error of one pair differs between base_link and map storage: %s vs %s" % (a, b), sc)
         if a["correct_plane_1m"] != b["correct_plane_1m"] and abs(a["plane"] - 1.0) > 1e-3:
             ctx.violation("per-object-scores:ego-vs-map:decision", "TP decision of one pair differs between base_link and map storage: %s vs %s" % (a, b), sc)
+    hevs = [dict(info[t_]["heading_event"], tid=t_) for t_ in sorted(info)]
+    for t_, line, clause in _trace.validate(ctx, "Trace_Heading", hevs, tag="Trace_Heading_" + ctx.pid):
+        ctx.violation("per-object-scores:ego-vs-map:heading:" + clause, "APH weight / yaw error of one pair (w4 = stored in map, w4r = stored in base_link) rejected by Trace_Heading: %s" % clause, info[t_])
     for t_, line, clause in _trace.validate(ctx, "Trace_Scores", evs, tag="Trace_Scores_" + ctx.pid):
         ctx.violation("per-object-scores:ego-vs-map:" + clause, "scores of one pair stored in base_link / in map rejected by Trace_Scores: %s" % clause, info[t_])
 
